@@ -382,6 +382,19 @@ def shape(T, t):
     return ("?", kids)
 
 
+def unproductive_nts(sp):
+    """The non-terminals of a dumped specification that derive no terminal string."""
+    good = set()
+    changed = True
+    while changed:
+        changed = False
+        for p in sp["productions"]:
+            if p["head"] not in good and all(k == "t" or x in good for k, x in p["body"]):
+                good.add(p["head"])
+                changed = True
+    return set(sp["nonterminals"]) - good
+
+
 def lr0_state_count(T):
     """Number of states of the LR(0) automaton of the (augmented) grammar — the number of LALR(1) states."""
     prods = [(len(T.nts), [("n", T.start)])] + list(T.prods)     # production 0 = S' -> start
@@ -617,6 +630,16 @@ def check(tier):
         bad.extend(o + x for x in m)
         ref_conflict.update(o + x for x in (C.parse_mismatches(out, "R") or []))
         inexact.extend(o + x for x in (C.parse_mismatches(out, "X") or []))
+    # Grammars with a non-terminal that derives no terminal string are outside the reference's domain: there the two usual definitions
+    # of "the LALR(1) table" part.  Merging LR(1) item sets (the dependency) gives a closure item [B -> .g, t] only for t in FIRST(beta a), which
+    # is empty when beta starts with such a non-terminal, so the state has no SHIFT for g's first symbol; LR(0) transitions plus look-ahead sets
+    # (Cfg/Lalr.v) keep that SHIFT.  The entries differ only where no sentence can pass, and the property speaks of sentences: an accepted
+    # table of such a grammar is compared on all strings up to the bound instead, and reported only with a sentence.
+    # (a rejected one: the reference must report a conflict too - which entries conflict may differ for the same reason)
+    outside = [i for i in bad if unproductive_nts(meta[i][5])
+               and ((i in ref_conflict) if meta[i][4] else language_difference(meta[i][3], meta[i][5]) is None)]
+    bad = [i for i in bad if i not in outside]
+    dist["unproductive_nonterminal_compared_on_strings_only"] = len(outside)
     # precedence-dictated parses for the operator family (executed on the dumped table with the driver mirror)
     tree_bad, n_expr = [], 0
     for name, text, levels, T, rejected, _sp, _ns in meta:
@@ -647,7 +670,9 @@ def check(tier):
     rep.cov["input_distribution"] = dict(dist, expressions=n_expr)
     rep.cov["samples"] = [{"grammar": m[1], "rejected": m[4]} for m in meta[:4]]
     rep.cov["partial"] = ["known finding D25: tables with fewer states than the LALR(1) automaton (superset merging in the dependency) are not "
-                          "certified; they are reported as KNOWN-FINDING with a wrongly accepted sentence when one is found"]
+                          "certified; they are reported as KNOWN-FINDING with a wrongly accepted sentence when one is found",
+                          "accepted grammars with a non-terminal deriving no terminal string whose table is not the reference's (LR(1)-merging and "
+                          "LR(0)-plus-look-aheads differ there in entries no sentence reaches) are compared with the grammar on all strings up to length 9 only"]
     if cerr is not None:
         rep.obligation("instance files compile", False)
         rep.violation("instances", {"theorem": "gen/inst_C06_*.v does not compile", "log": cerr[-3000:]}, no_input=True)
@@ -657,8 +682,11 @@ def check(tier):
                        % (len(insts) - len(bad), len(insts)), not unexplained)
     # exactness certificates (Cfg/LRExact.v), for the tables that are the reference tables
     if cerr is None:
-        att_triv = [i for i, x in enumerate(insts) if x[4] == "trivial" and i not in bad]
-        att_dir = [i for i, x in enumerate(insts) if isinstance(x[4], list) and i not in bad]
+        # (the certificate needs a completion for every viable prefix: none exists below a non-terminal that derives nothing)
+        reduced = [not unproductive_nts(m[5]) for m in meta]
+        att_triv = [i for i, x in enumerate(insts) if x[4] == "trivial" and i not in bad and i not in outside and reduced[i]]
+        att_dir = [i for i, x in enumerate(insts) if isinstance(x[4], list) and i not in bad and i not in outside and reduced[i]]
+        dist["unproductive_nonterminal_no_exactness_certificate"] = sum(1 for i, x in enumerate(insts) if not reduced[i] and x[4] is not None)
         fail_triv = [i for i in att_triv if i in inexact]
         fail_dir = [i for i in att_dir if i in inexact]
         # (a prefix operator on a low level makes a deep priority conflict: the shallow classification cannot certify such tables;
